@@ -103,14 +103,28 @@ func c19PanicCause(p *c19Panic) string {
 }
 
 func c19ShortStack(p *c19Panic) string {
-	// the frames below the panic: first lines mentioning conjure code
+	// the first frames of the code under test below the panic (file:line)
 	var out []string
+	seenPanic := false
 	for _, ln := range strings.Split(p.Stack, "\n") {
-		if strings.Contains(ln, "conjure/") && !strings.Contains(ln, "zz_verif") && strings.Contains(ln, ".go:") {
-			out = append(out, strings.TrimSpace(ln))
-			if len(out) == 3 {
-				break
-			}
+		if strings.HasPrefix(ln, "panic(") {
+			seenPanic = true
+			continue
+		}
+		if !seenPanic || !strings.HasPrefix(ln, "\t") || !strings.Contains(ln, ".go:") {
+			continue
+		}
+		if strings.Contains(ln, "zz_verif") || strings.Contains(ln, "/src/runtime/") || strings.Contains(ln, "/src/testing/") {
+			continue
+		}
+		f := strings.TrimSpace(ln)
+		if i := strings.Index(f, " +0x"); i > 0 {
+			f = f[:i]
+		}
+		f = strings.TrimPrefix(f, c19RepoDir()+"/")
+		out = append(out, f)
+		if len(out) == 2 {
+			break
 		}
 	}
 	return strings.Join(out, " <- ")
@@ -635,7 +649,8 @@ func TestVerif_C19_shipped(t *testing.T) {
 		}
 	}
 	regs := []c19RegSpec{{Secret: 1, TT: 0, Gen: 957, Covert: "192.0.2.200:443", LibVer: 4}, {Secret: 2, TT: 1, V6: true, Gen: 957, Covert: "203.0.113.9:80", LibVer: 4}}
-	run(c19ConfigCase{Conf: c19Conf{Verbatim: true, Note: "shipped file verbatim"}, Regs: regs})
+	// the shipped file itself: first, and in every shard, so that it is what a failing run reports
+	c19CheckConfig(t, rec, x, c19ConfigCase{Conf: c19Conf{Verbatim: true, Note: "shipped file verbatim"}, Regs: regs})
 	base, err := c19FromTOML(x.shipped)
 	if err != nil {
 		t.Fatalf("harness problem: shipped file does not decode: %v", err)
